@@ -11,7 +11,7 @@ Nothing here decides whether the directory is well formed.  The module only OBSE
   * burn chain: the entries of the burn-chain file as read by the same YAML reader, and the Transmutation / DecayMode
     objects actually attached to the nuclides after ``imposeBurnChain``;
   * materials: for every class in ``armi.materials``: whether ``cls()`` returns, its ``massFrac`` (nuclide name, parts per
-    billion, precision of the datum), and ``density`` / ``pseudoDensity`` / ``linearExpansionPercent`` evaluated at NT
+    billion), and ``density`` / ``pseudoDensity`` / ``linearExpansionPercent`` evaluated at NT
     temperatures (end points included) across every stated validity range that concerns density or expansion.
 
 Reals cannot live in TLC (32-bit integers): they are quantised by order-preserving maps, stated here once.
@@ -71,25 +71,6 @@ def q_micro(x):
     return int(max(-CLAMP, min(CLAMP, v)))
 
 
-def datum_tol_ppb(x):
-    """Half a unit in the last decimal place of the datum as written (shortest round-trip repr), in ppb, at least 1.
-
-    A composition typed as 0.9493 is known to +-0.00005; one computed in double precision to +-1 ppb (the export's own
-    rounding).  This is the 'data precision' of the mass-fraction clause."""
-    if float(x).is_integer():  # 0.0 and 1.0 are exact statements ("it is all sodium"), not one-decimal data
-        return 1
-    s = repr(float(x))
-    if "e" in s or "E" in s:
-        mant, exp = s.lower().split("e")
-        dec = (len(mant.split(".")[1]) if "." in mant else 0) - int(exp)
-    else:
-        dec = len(s.split(".")[1]) if "." in s else 0
-    dec = max(0, dec)
-    if dec >= 9:
-        return 1
-    return max(1, int(math.ceil(0.5 * 10 ** (9 - dec))))
-
-
 # ----------------------------------------------------------------------------------------------------------------------
 # nuclide directory
 # ----------------------------------------------------------------------------------------------------------------------
@@ -107,20 +88,31 @@ def _ident(n, getter):
         v = f()
     except NotImplementedError:
         return ""
+    except Exception as ex:  # noqa: BLE001  a getter that raises is an observation (the identifier clauses will reject it)
+        return "<exception:%s>" % type(ex).__name__
     if v is None or v is NotImplementedError:
         return ""
     return v if isinstance(v, str) else "<%s:%r>" % (type(v).__name__, v)
 
 
+_IMPOSE_STATUS = {"status": "ok"}
+
+
 def ensure_burn_chain():
+    """imposeBurnChain(resources/burn-chain.yaml) unless a chain is already imposed; what it raised, if anything, is part of
+    the observation (a burn chain that names a parent the directory does not have makes imposeBurnChain raise KeyError)."""
     armi_ready()
     from armi import context
     from armi.nucDirectory import nuclideBases as nb
 
     path = os.path.join(context.RES, "burn-chain.yaml")
     if not nb.burnChainImposed:
-        with open(path) as f:
-            nb.imposeBurnChain(f)
+        _IMPOSE_STATUS["status"] = "ok"
+        try:
+            with open(path) as f:
+                nb.imposeBurnChain(f)
+        except Exception as ex:  # noqa: BLE001
+            _IMPOSE_STATUS["status"] = "exception:%s:%s" % (type(ex).__name__, str(ex)[:80])
     return path
 
 
@@ -201,7 +193,7 @@ def export_chain(chain_path=None):
             live.append(_entry(n.name, "transmutation", t))
         for d in n.decays:
             live.append(_entry(n.name, "decay", d))
-    return {"chainFile": named, "chainLive": live}
+    return {"chainFile": named, "chainLive": live, "chainStatus": _IMPOSE_STATUS["status"]}
 
 
 # ----------------------------------------------------------------------------------------------------------------------
@@ -280,7 +272,7 @@ def export_materials(nt=25):
             if total + abs(q) > CLAMP:  # keep TLC's 32-bit sum from overflowing; still far from normalised
                 q = 0 if total >= CLAMP else CLAMP - total
             total += abs(q)
-            rec["entries"].append({"nuc": str(nuc), "ppb": q, "tol": datum_tol_ppb(frac)})
+            rec["entries"].append({"nuc": str(nuc), "ppb": q})
         ranges = stated_ranges(cls)
         if not ranges:
             ranges = [("nominal", "C", NOMINAL_RANGE_C[0], NOMINAL_RANGE_C[1])]
